@@ -141,4 +141,40 @@ ok = ok and same('verdicts judged on the cast values', (v.is_valid, v.num_failur
 return ok
 """
         out.append(mk_case(f"c15.cast.two_rules.{n}", [("u1", UN), ("t", "int")], body, pre=[f"BU({L}, u1, t)"], stubs=["sym_repr"]))
+    # a later rule's path carries a value condition on a string that an earlier rule casts: the nodes to cast are the ones the
+    # path selects in the document (as given), whatever other rules have already written to the shared copy - in both orders
+    for order in ("flags_first", "retries_first"):
+        body = f"""
+P1 = (('prim', 'steps'), ('list', NULL), ('prim', 'enabled'))
+P2 = (('prim', 'steps'), ('list', V('items_contain', enabled='true')), ('prim', 'retries'))
+doc = {{'steps': [{{'enabled': 'true', 'retries': '3'}}, {{'enabled': 'false', 'retries': '5'}}, {{'enabled': 'true', 'retries': 'many'}}, {{'enabled': u1, 'retries': '7'}}]}}
+before = tx(doc)
+R1 = Rule(build_path(P1), Value.is_instance(bool), cast={{str: valida.casting.cast_string_to_bool}})
+R2 = Rule(build_path(P2), Value.greater_than(t), cast={{str: int}})
+v = Schema({'[R1, R2]' if order == 'flags_first' else '[R2, R1]'}).validate(doc)
+exp = ref_cast([(P1, 'bool'), (P2, 'int')], doc)
+ok = same('cast_data', tx(v.cast_data), tx(exp))
+ok = ok and note("caller's document unchanged", tx(doc) == before) and note('private copy', disjoint_containers(v.cast_data, doc))
+return ok
+"""
+        out.append(mk_case(f"c15.cast.selection_vs_other_casts.{order}", [("u1", UN), ("t", "int")], body, pre=[f"BU({L}, u1, t)"], stubs=["sym_repr"]))
+    # strings that are instances of a str subclass (as round-trip YAML loaders hand out quoted scalars) are strings
+    body = """
+class Quoted(str):
+    pass
+doc = {'a': Quoted('true'), 'b': [Quoted('False'), Quoted('maybe'), u1, 'TRUE'], None: Quoted('3'), 'n': {'k': Quoted('-2'), 'j': Quoted('x')}}
+before = tx(doc)
+PB1, PB2 = (('map', NULL),), (('prim', 'b'), ('list', NULL))
+PI1, PI2 = (('map', NULL),), (('prim', 'n'), ('map', NULL))
+vb = Schema([Rule(build_path(PB1), Value.truthy() | Value.falsy(), cast={str: valida.casting.cast_string_to_bool}),
+             Rule(build_path(PB2), Value.is_instance(bool), cast={str: valida.casting.cast_string_to_bool})]).validate(doc)
+ok = same('str -> bool cast data', tx(vb.cast_data), tx(ref_cast([(PB1, 'bool'), (PB2, 'bool')], doc)))
+vi = Schema([Rule(build_path(PI1), Value.truthy() | Value.falsy(), cast={str: int}), Rule(build_path(PI2), Value.less_than(t), cast={str: int})]).validate(doc)
+ok = ok and same('str -> int cast data', tx(vi.cast_data), tx(ref_cast([(PI1, 'int'), (PI2, 'int')], doc)))
+t1 = Rule(build_path(PB2), Value.is_instance(bool), cast={str: valida.casting.cast_string_to_bool}).test(doc)
+ok = ok and same('Rule.test verdict on the cast values', (t1.is_valid, t1.num_failures), (False, 1 + (0 if type(u1) is bool else 1)))
+ok = ok and note("caller's document unchanged", tx(doc) == before)
+return ok
+"""
+    out.append(mk_case("c15.cast.str_subclass", [("u1", UN), ("t", "int")], body, pre=[f"BU({L}, u1, t)"], stubs=["sym_repr"]))
     return out
